@@ -178,7 +178,8 @@ reg('C06', True,
     'expression (R^n, SO(2), SO(3), time, discrete, sphere, torus, Moebius, compound, space-time; Dubins under its '
     'isSymmetric_ flag); d(a,a) normalises to 0 and equalStates(a,a) to true; equalStates compares nothing that '
     'distance ignores and is invariant under q ~ -q where the SO(3) distance is; no Dubins path constructor returns a '
-    'path that ignores a pose coordinate. Not decided: the triangle inequality, d <= getMaximumExtent, positivity for '
+    'path that ignores a pose coordinate; distance <= getMaximumExtent for in-bounds states of SO(2), time, discrete, '
+    'SO(3) (one known finding: the unbounded time space). Not decided: the triangle inequality, the extent bound for R^n, positivity for '
     'nearly equal states (floating point), Reeds-Shepp symmetry and the Klein-bottle seam (hold only through '
     'arithmetic the normal form does not capture; listed).',
     'clang 14 AST of 20 units (all state spaces + wrappers); component spaces are opaque calls under an induction hypothesis',
